@@ -125,7 +125,7 @@ Proof.
   unfold qstep. destruct op; cbn [qexec qspec_step].
   - (* Enqueue *)
     unfold queue_Enqueue. destruct (PushFront_sim _ _ _ _ _ v R H) as (s' & E & R'). rewrite E. cbn [bind fst snd].
-    exists s'. eexists. split; [reflexivity|]. split; [exact R'|]. split; [apply length_a_set|].
+    exists s'. eexists. split; [reflexivity|]. split; [exact R'|]. split; [rewrite length_a_set; reflexivity|].
     unfold qabs. rewrite a_seq_a_set, Nat.eqb_refl by exact Hq. cbn [map rev].
     change (a_val (a_set (a_alloc a v) q (fresh a :: a_seq a q))) with (a_val (a_alloc a v)).
     rewrite a_val_fresh. f_equal. f_equal. apply map_ext_in. intros x Ix. apply a_val_alloc.
@@ -144,8 +144,8 @@ Proof.
       destruct (R_init _ _ R _ _ _ H) as (_ & D & _). rewrite Es in D, R'.
       apply NoDup_app_iff in D as (_ & _ & D).
       rewrite rem_split in R' by (auto; intro X; apply (D _ X); simpl; auto). rewrite app_nil_r in R'.
-      rewrite map_app, rev_unit. cbn [map fst snd].
-      exists s'. eexists. split; [reflexivity|]. split; [exact R'|]. split; [apply length_a_set|].
+      rewrite map_app. cbn [map]. rewrite rev_unit. cbn [fst snd].
+      exists s'. eexists. split; [reflexivity|]. split; [exact R'|]. split; [rewrite length_a_set; reflexivity|].
       rewrite a_seq_a_set, Nat.eqb_refl by exact Hq. reflexivity.
   - (* Peek *)
     unfold queue_Peek. rewrite (Back_sim _ _ _ _ _ R H). cbn [bind]. unfold qabs.
@@ -155,8 +155,8 @@ Proof.
       rewrite last_opt_snoc. cbn [ptr_eqb option_eqb].
       assert (Ie : In e (a_seq a q)) by (rewrite Es; apply in_or_app; simpl; auto).
       assert (He : e < size s) by (eapply a_seq_owned_lt; eauto).
-      hstep. rewrite (Rep_vl _ _ _ R He). rewrite map_app, rev_unit. cbn [map fst snd].
-      exists s, a. rewrite Es, map_app, rev_unit. auto.
+      hstep. rewrite (Rep_vl _ _ _ R He). rewrite map_app. cbn [map]. rewrite rev_unit. cbn [fst snd].
+      exists s, a. rewrite Es, map_app. cbn [map]. rewrite rev_unit. auto.
   - (* Len *)
     unfold queue_Len. rewrite (Len_sim _ _ _ _ _ R H). cbn [bind fst snd].
     exists s, a. unfold qabs. rewrite rev_length, map_length. auto.
@@ -185,5 +185,5 @@ Proof.
   pose proof (alloc_list_sim _ _ Rep_init) as R0.
   destruct (qrun_from_sim 0 ops _ _ R0) as (s' & a' & E & R' & _).
   { unfold a_newlist, init_astate; simpl; lia. }
-  cbn [lsts length]. rewrite E. split; [reflexivity|]. exists a'. exact R'.
+  change (length (lsts {| elems := []; lsts := [] |})) with 0. rewrite E. split; [reflexivity|]. exists a'. exact R'.
 Qed.
